@@ -574,7 +574,9 @@ def _prepare_body(caller_fi, call: ast.Call, callee_fi, st=None):
         if loc in caller_names and loc not in binding:
             # same spelling in caller and callee: kept when the caller's variable is overwritten by the call statement or dead
             # after it (and no argument mentions it), else the callee's local is renamed
-            harmless = loc not in arg_names and (loc in st_targets or (st is not None and not _live_after(caller_fi.node, st, loc)))
+            caller_params = {a.arg for a in caller_fi.node.args.posonlyargs + caller_fi.node.args.args + caller_fi.node.args.kwonlyargs}
+            harmless = loc not in arg_names and loc not in caller_params \
+                and (loc in st_targets or (st is not None and not _live_after(caller_fi.node, st, loc)))
             if not harmless:
                 rename[loc] = f"{loc}__h"
     # an argument substituted textually must not mention a name the inlined body assigns
@@ -587,12 +589,58 @@ def _prepare_body(caller_fi, call: ast.Call, callee_fi, st=None):
             if tmp != p2:
                 rename[p2] = tmp
     body = [_Subst(subst).visit(s) for s in body]
+    body = _fold_constant_ifs(body)
     real_rename = {k: v for k, v in rename.items() if k != v}
     if real_rename:
         body = [_Rename(real_rename).visit(s) for s in body]
     for s in pre + body:
         ast.fix_missing_locations(s)
     return pre, body
+
+
+def _const_truth(t: ast.AST) -> Optional[bool]:
+    """Truth value of a test made of literals only (after a default / literal argument was substituted for a parameter)."""
+    if isinstance(t, ast.Constant):
+        return bool(t.value)
+    if isinstance(t, ast.UnaryOp) and isinstance(t.op, ast.Not):
+        v = _const_truth(t.operand)
+        return None if v is None else not v
+    if isinstance(t, ast.Compare) and len(t.ops) == 1 and isinstance(t.left, ast.Constant) and isinstance(t.comparators[0], ast.Constant):
+        a, b, op = t.left.value, t.comparators[0].value, t.ops[0]
+        if isinstance(op, ast.Is):
+            return a is b if (a is None or b is None or isinstance(a, bool) or isinstance(b, bool)) else None
+        if isinstance(op, ast.IsNot):
+            return a is not b if (a is None or b is None or isinstance(a, bool) or isinstance(b, bool)) else None
+        if isinstance(op, ast.Eq):
+            return a == b
+        if isinstance(op, ast.NotEq):
+            return a != b
+    if isinstance(t, ast.BoolOp):
+        vs = [_const_truth(v) for v in t.values]
+        if isinstance(t.op, ast.And):
+            if any(v is False for v in vs):
+                return False
+            return True if all(v is True for v in vs) else None
+        if any(v is True for v in vs):
+            return True
+        return False if all(v is False for v in vs) else None
+    return None
+
+
+def _fold_constant_ifs(stmts: List[ast.stmt]) -> List[ast.stmt]:
+    out: List[ast.stmt] = []
+    for s in stmts:
+        if isinstance(s, ast.If):
+            v = _const_truth(s.test)
+            if v is not None:
+                out.extend(_fold_constant_ifs(s.body if v else s.orelse))
+                continue
+            s.body = _fold_constant_ifs(s.body) or [ast.copy_location(ast.Pass(), s)]
+            s.orelse = _fold_constant_ifs(s.orelse)
+        elif isinstance(s, (ast.For, ast.While, ast.With)):
+            s.body = _fold_constant_ifs(s.body) or [ast.copy_location(ast.Pass(), s)]
+        out.append(s)
+    return out
 
 
 def _inline_statement_call(repo, caller_fi, st, call, form, callee_fi) -> bool:
